@@ -443,7 +443,7 @@ func canonLoops(t ir.Term) ir.Term {
 								_, isSrc = a.X.(*ir.Param)
 							}
 							if isSrc {
-								if _, isNil := y.Then.(*ir.Nil); isNil {
+								if _, isNil := y.Then.(*ir.Nil); isNil && loopsOver(y.Else, ln.Args[0]) {
 									return canonLoops(y.Else), true
 								}
 							}
@@ -627,4 +627,30 @@ func sameVarTerm(t ir.Term, v *types.Var) bool {
 		return x.Obj == v
 	}
 	return false
+}
+
+// loopsOver: t is a sequence whose only loop ranges over src and whose other effects are declarations — with an
+// empty src the loop does not run and the result is the initial accumulator.
+func loopsOver(t ir.Term, src ir.Term) bool {
+	sq, ok := t.(*ir.Seq)
+	if !ok {
+		return false
+	}
+	loops := 0
+	for _, e := range sq.Effs {
+		switch x := e.(type) {
+		case *ir.LoopT:
+			loops++
+			if x.Over == nil || ir.String("", x.Over) != ir.String("", src) {
+				return false
+			}
+		case *ir.AssignT:
+			if x.Op != ":=" {
+				return false
+			}
+		default:
+			return false
+		}
+	}
+	return loops == 1
 }
